@@ -1628,3 +1628,15 @@ Proof.
   - intros x v A. destruct (VAR x v A) as [src [_ [_ ->]]]. unfold n_of. rewrite SP. simpl.
     rewrite write_positions_length. apply repeat_length.
 Qed.
+
+(* ================================================================== re-entry *)
+(* The base class calls self.__setattr__(name, ...) / self[name] again from the values setter, nbytes, reindex and to_dataframe, with the
+   names of `index` / `names`; on an aliased object these calls go through the mixin's wrappers a second time.  Unless an alias is named
+   like a variable (the kept finding) that second resolution is the identity - which is why the model may call the base operation
+   directly there: *)
+Theorem reentry_is_identity am s :
+  (forall x, In x (index s) -> ~ In x (akeys (amap am))) -> Inv s ->
+  forall x, In x (row_names s) \/ In x (index s) -> resolve am x = x.
+Proof.
+  intros H I x [Hx|Hx]; unfold resolve; apply aget_nonkey; apply H; [apply (row_names_incl s I); exact Hx|exact Hx].
+Qed.
